@@ -199,6 +199,11 @@ def run(chk, tier):
     c15.glv(chk, prog)
     c15.probes(chk, prog)
     vcp_lookup(chk, prog)
+    # the lookup walks the start chunk's records and decodes their message streams: a VCP message that is present is found
+    # only if the records tile the chunk (C05) and the stream is framed message by message (C03)
+    from rules import c03
+    c05.records_and_payloads(chk, prog)
+    c03.framing(chk, prog)
     # "never ... panics": the estimate computed at the top of every iteration divides by the timing window's length (C19)
     from rules import c19
     c19.window(chk, prog)
